@@ -9,7 +9,7 @@ set -u
 id="$1"; shift
 checks="${*:-$id}"
 # SEED_ROUND=2: second, independent round (different change per property): /tmp/seed2_<id> -> seeded/<id>b
-r="${SEED_ROUND:-1}"; suf=("" "" b c d e f g h i j k l m); if [ "$r" = "1" ]; then src=/tmp/seed_$id/out; else src=/tmp/seed${r}_$id/out; fi; dst=/verif/seeded/${id}${suf[$r]}
+r="${SEED_ROUND:-1}"; suf=("" "" b c d e f g h i j k l m n o p q r s); if [ "$r" = "1" ]; then src=/tmp/seed_$id/out; else src=/tmp/seed${r}_$id/out; fi; dst=/verif/seeded/${id}${suf[$r]}
 W=/tmp/rv_seedcheck_${SEED_ROUND:-1}_$id
 [ -f $src/patch.diff ] || { echo "no patch for $id"; exit 2; }
 mkdir -p $dst && cp $src/* $dst/ 2>/dev/null
